@@ -21,6 +21,7 @@ import c11
 
 PROP = "C09"
 NSEARCH = 3
+BIG_SCHEME = "CJJ14.PiBas"
 
 
 def fixtures():
@@ -36,6 +37,13 @@ def fixtures():
         db1 = sc.make_db([2, 1, 3], sc.id_size_of(cfg1), rnd)
         fx[s] = {"cfg": sc.workflow_config(s, db), "db": db, "absent": sc.rand_kw(rnd, 7),
                  "decoy_cfg": sc.fit_config(s, cfg1, db1), "decoy_db": db1}
+    # one service whose index (upload) and whose largest result (download) are both above 1 MiB, the default frame limit of
+    # the websockets library: 1300 postings of 1 KiB identifiers under one keyword
+    cfgb = dict(sc.default_config(BIG_SCHEME), param_identifier_size=1024)
+    dbb = sc.make_db([1300, 2], 1024, rnd)
+    fx["BIG"] = {"cfg": sc.workflow_config(BIG_SCHEME, dbb) | {"param_identifier_size": 1024}, "db": dbb, "absent": sc.rand_kw(rnd, 7),
+                 "decoy_cfg": None, "decoy_db": None, "scheme": BIG_SCHEME}
+    fx["BIG"]["cfg"] = sc.fit_config(BIG_SCHEME, cfgb, dbb)
     return fx
 
 
@@ -43,7 +51,7 @@ class Run(c11.Run):
     def __init__(self, fx, base, scheme, k=0):
         # odd cases: the server's cleanup takes a little real time, so every immediate reconnect has to wait for its turn
         super().__init__({"cfg": fx["cfg"], "db": fx["db"], "bad": [fx["cfg"]]}, base, cleanup_delay=0.03 if k % 2 else 0.0)
-        self.decoy = (fx["decoy_cfg"], fx["decoy_db"]) if k % 3 == 0 else None
+        self.decoy = (fx["decoy_cfg"], fx["decoy_db"]) if k % 3 == 0 and fx["decoy_cfg"] is not None else None
         self.scheme = scheme
         self.absent = fx["absent"]
         self.nsearch = 0
@@ -73,7 +81,7 @@ class Run(c11.Run):
             if self.nsearch % 2 == 0:
                 kw, exp = self.absent, []
             else:
-                kw = kws[(self.nsearch * 7) % len(kws)]
+                kw = kws[(self.nsearch * 7) % len(kws)] if len(self.fx["db"][kws[0]]) < 1000 or self.nsearch > 1 else kws[0]
                 exp = self.fx["db"][kw]
             r = await self.w.client_op("search", sid, kw, keep=True)
             r["correct"] = r["out"] == "ok" and r["result"] is not None and sc.same_result(self.scheme, r["result"], exp)
@@ -109,7 +117,7 @@ class Run(c11.Run):
 
 def replay(fx, scheme, hist, k):
     d = os.path.join(subdir("c09-data"), "h%d" % k)
-    r = Run(fx[scheme], d, scheme, k)
+    r = Run(fx[scheme], d, fx[scheme].get("scheme", scheme), k)
     loop = asyncio.new_event_loop()
     loop.set_exception_handler(lambda l, c: None)
     try:
@@ -157,6 +165,9 @@ def main(argv_tier=None, replay_path=None):
         extremes = [min(hists, key=len), max(hists, key=lambda h: (h.count("restart"), len(h))), max(hists, key=lambda h: (h.count("recreate"), len(h)))]
         for h in list(dict.fromkeys(list(hs) + extremes)):
             cases.append((s, h))
+    # the big service: the plain workflow and the one with every re-creation / restart
+    for h in (min(hists, key=len), max(hists, key=lambda h: (h.count("restart") + h.count("recreate"), len(h)))):
+        cases.append(("BIG", h))
     evs = pmap(lambda a: replay(fx, a[1][0], list(a[1][1]), a[0]), list(enumerate(cases)))
     traces = [{"tid": "w%d" % k, "ev": ev, "scheme": s, "history": list(h)} for (k, (s, h)), ev in zip(enumerate(cases), evs)]
     # ---- command level: the functions run_client.py calls (aliases, JSON database with hex identifiers, output formats)
